@@ -15,7 +15,6 @@ inductive PErr
   | value                        -- plain ValueError
   | parse (tok : Option Token)   -- ParseError (not a ValueError)
   | stop                         -- StopIteration
-  | type                         -- TypeError
   | unbound                      -- UnboundLocalError
   | exc                          -- bare `Exception`
   | fuel                         -- model only
@@ -71,7 +70,6 @@ namespace P
 
 def ofDErr : DErr → PErr
   | .value => .value
-  | .type => .type
 
 def liftD {α} (x : Except DErr α) : PM α :=
   match x with
@@ -97,7 +95,6 @@ def next : PM Token := do
       match g.tail with
       | .eof => throw .stop
       | .lexerr p => throw (.lexer p)
-      | .typeerr => throw .type
 
 /-- `tokens.send(t)`; a second `send` before `next` loses both tokens. -/
 def send (t : Token) : PM Unit := do
@@ -258,7 +255,6 @@ def value (c : PCfg) : Nat → PM Val
         | .ok v => do
           modify (fun s => { s with simple := some t })
           pure v
-        | .error .type => throw .type
         | .error .value => do
           send t
           -- for p in (parse_set, parse_sequence, parse_value_post_hook)
@@ -350,7 +346,7 @@ def assignmentBase (c : PCfg) (fuel : Nat) : PM (Str × Val) := do
   let t ← tryCatch next (fun e => match e with
     | .stop => throw .value
     | e => throw e)
-  let isName ← liftD (Tok.isParameterName c.d t.text)
+  let isName := Tok.isParameterName c.d t.text
   if !isName then
     send t
     throw .value
@@ -399,7 +395,7 @@ def beginAgg (c : PCfg) (fuel : Nat) : PM (Str × Str) := do
   let name ← tryCatch next (fun e => match e with
     | .stop => throw (.parse none)
     | e => throw e)
-  let isName ← liftD (Tok.isParameterName c.d name.text)
+  let isName := Tok.isParameterName c.d name.text
   if !isName then throwIn
   let _ ← stmtDelim c fuel
   pure (b.text, name.text)
@@ -454,8 +450,7 @@ def moduleHook (c : PCfg) (m : Items) (fuel : Nat) : PM (Items × Except PErr Bo
             | some w => w.text
             | none => tokenTextOf lastV
           match Tok.isParameterName c.d lastTok with
-          | .error e => pure (m, .error (ofDErr e))
-          | .ok true =>
+          | true =>
             mark "omni-hook-reinterprets-previous-value-as-name"
             if (← get).afterDelim then mark "omni-hook-reinterprets-across-delimiter"
             let ev ← emptyValue c t.pos
@@ -475,7 +470,7 @@ def moduleHook (c : PCfg) (m : Items) (fuel : Nat) : PM (Items × Except PErr Bo
               let ev2 ← emptyValue c (t.pos + 1)
               pure (m1 ++ [(lastTok, ev2)], .ok false)
             | .error e => pure (m1, .error e)
-          | .ok false =>
+          | false =>
             -- `tokens.send(t); raise Exception` ("ignore me")
             let r ← tryCatch (do send t; pure (Except.ok ())) (fun e => pure (Except.error e))
             match r with
